@@ -5,6 +5,7 @@ from .core import Finding, RuleResult, FactError, op_local, op_place
 from .lib_errdisc import closure_arg_body
 
 PROPERTY = "C10"
+CONFIGS_QUICK = ["F2", "F3"]   # F3 adds the experimental estimators, which have reusable buffers of their own
 TECHNIQUE = ("STATE-ENUM (inventory of cross-call state from type facts), RESET (append-before-define typestate on "
              "reusable buffers, interprocedural summaries), KEY (injectivity of cache-key derivation by backward "
              "slicing), LOCKORDER (borrowed-while-calling graph acyclic)")
@@ -263,6 +264,52 @@ NONINJ_BIN = {"Div", "Rem", "Shr", "ShrUnchecked", "BitAnd", "BitOr", "BitXor", 
               "Sub", "SubWithOverflow", "Shl", "ShlUnchecked"}
 
 
+def key_selectors(facts, body, op):
+    """Control dependence of a key component: when the operand's local is assigned on several paths, the branches that
+    choose among the assignments must be matches on an enum discriminant (different variants, different keys).  A branch
+    on a comparison or on a predicate call maps a whole range of parameter values to one key value."""
+    pl = op_place(op)
+    if pl is None:
+        return []
+    l = pl["l"]
+    ds = [p for p in body.whole_defs(l) if p[0] in body.live]
+    if len(ds) < 2:
+        return []
+    blocks = sorted(set(p[0] for p in ds))
+    # common dominator of the defining blocks
+    idom = body.idom
+    def chain(b):
+        out = [b]
+        while idom.get(out[-1]) is not None and idom[out[-1]] != out[-1]:
+            out.append(idom[out[-1]])
+        return out
+    chains = [chain(b) for b in blocks]
+    common = None
+    for x in chains[0]:
+        if all(x in c for c in chains[1:]):
+            common = x
+            break
+    if common is None:
+        return []
+    bad = []
+    seen_sw = set()
+    for c in chains:
+        for x in c:
+            t = body.blocks[x]["term"]
+            if t["k"] == "switch" and x not in seen_sw and len(set(body.succ[x])) > 1:
+                seen_sw.add(x)
+                ok = False
+                for o in body.origins(t["d"]):
+                    if o[0] == "rv" and o[3]["k"] == "discr":
+                        ok = True
+                if not ok:
+                    bad.append("key value chosen by a branch that is not a match on an enum variant (%s): a range of "
+                               "parameter values shares one key" % body.loc(x, "term"))
+            if x == common:
+                break
+    return bad
+
+
 def key_slice(facts, body, op, depth=0, seen=None):
     """List of non-injective operations in the backward slice of `op` (empty = injective derivation)."""
     if seen is None:
@@ -271,6 +318,7 @@ def key_slice(facts, body, op, depth=0, seen=None):
     if depth > 10:
         return ["slice too deep"]
     from .lib_cast import is_narrowing
+    bad += key_selectors(facts, body, op)
     for o in body.origins(op):
         k = o[0]
         if k in ("param", "const", "local"):
